@@ -5,7 +5,9 @@
 //!   doc = {"objs": [Val...] (object i = objs[i-1], generation 0), "root": Val (trailer /Root)}
 //! A reference with n = 0 is dangling (concretised as 99999 0 R).
 //!
-//!   c13 gen    --seed S --n N --out F      seeded random typed-chaos documents (<= 12 objects)
+//!   c13 gen    --seed S --n N --out F [--keys A,B,..]
+//!                                            seeded random typed-chaos documents (<= 12 objects); --keys adds the key
+//!                                            names harvested from the sources under test to the vocabulary
 //!   c13 run    --in F --out F [--timeout-ms T] [--mem-mb M]
 //!                                            supervisor: every record {"doc":..} is run in an isolated child
 //!                                            worker; hang / abort / stack overflow are data for that case
@@ -889,6 +891,14 @@ const KEYS: &[&str] = &[
     "Subtype", "Width", "Height", "BitsPerComponent", "Pages", "F1", "Im1", "DecodeParms", "Predictor", "Columns",
 ];
 
+/// KEYS plus the names harvested from the sources of the tree under test (`gen --keys A,B,..`): the vocabulary of
+/// the generator is a function of the code that is checked.
+static ALL_KEYS: std::sync::OnceLock<Vec<&'static str>> = std::sync::OnceLock::new();
+
+fn all_keys() -> &'static [&'static str] {
+    ALL_KEYS.get().map(|v| v.as_slice()).unwrap_or(KEYS)
+}
+
 fn expected_names(key: &str) -> &'static [&'static str] {
     match key {
         "Type" => &["Page", "Pages", "Catalog", "Font", "Outlines", "XObject"],
@@ -972,7 +982,7 @@ fn rand_dict(rng: &mut Rng, kind: &str, n: usize, me: usize, depth: u32) -> Valu
         _ => &["S", "D", "Title", "Dest"],
     };
     for _ in 0..nk {
-        let k = if rng.chance(2, 3) { *rng.pick(pref) } else { *rng.pick(KEYS) };
+        let k = if rng.chance(2, 3) { *rng.pick(pref) } else { *rng.pick(all_keys()) };
         if !keys.contains(&k) {
             keys.push(k);
         }
@@ -1083,7 +1093,7 @@ fn mutated_skeleton(rng: &mut Rng) -> Value {
                 pairs[i][1] = rand_val(rng, &key, n, me, 1);
             }
         } else {
-            let key = *rng.pick(KEYS);
+            let key = *rng.pick(all_keys());
             if !pairs.iter().any(|p| p[0] == key) {
                 pairs.push(json!([key, rand_val(rng, key, n, me, 1)]));
             }
@@ -1097,6 +1107,15 @@ fn gen(args: &[String]) {
     let n = arg_u64(args, "--n", 200);
     let mut out = NdjsonOut::create(&arg(args, "--out").unwrap());
     let mut rng = Rng::new(seed ^ 0xC13);
+    if let Some(extra) = arg(args, "--keys") {
+        let mut v: Vec<&'static str> = KEYS.to_vec();
+        for k in extra.split(',').filter(|k| !k.is_empty()) {
+            if !v.contains(&k) {
+                v.push(Box::leak(k.to_string().into_boxed_str()));
+            }
+        }
+        let _ = ALL_KEYS.set(v);
+    }
     for i in 0..n {
         let doc = if i == 0 {
             json!({"objs": skeleton(), "root": v_ref(1)})
